@@ -14,6 +14,18 @@ CHECKS = {
    "explicit-state search over declaration histories on the real analyzers, stateless per-site reference",
    "Same exploration as C01 over the instantiation alphabet (composite literals incl. elided, new, var declarations, package-level forms) against the constructor-list reference.",
    "go/parser, go/types, x/tools checker.Analyze trusted; programs restricted to the generated alphabet", "2/C02"),
+ "C03": ("model_checking", "E1 histmc",
+   "explicit-state search over statement and declaration histories on the real analyzers, reference with first-use rule",
+   "All statement sequences up to the stated length inside every encloser kind, and all histories of declarations across files, for same-package and imported @testonly items; each state is analysed by the real analyzers and compared per line with a reference that applies 'once per file and type, at the first use' in textual order.",
+   "go/parser, go/types, checker.Analyze trusted; use kinds the statement does not list are not judged", "2/C03"),
+ "C04": ("model_checking", "E1 histmc",
+   "explicit-state search over statement and declaration histories x allow-list shapes x using packages",
+   "Same exploration as C03 for @packageonly: 14 allow-list shapes (bare, names, paths, several lines, duplicates, prose) x 5 using packages (allowed by name, by path, same name other path, name differing from path, the declaring package) x every reference kind; reference = union-of-lists membership of path or name.",
+   "go/parser, go/types, checker.Analyze trusted", "2/C04"),
+ "C13": ("model_checking", "E1 histmc",
+   "metamorphic exploration: every state analysed under the direct spelling and under each identical-type spelling",
+   "Every state of the C01-C04 universes (bounded) is analysed twice by the real analyzers - type named directly vs. local alias, alias from a third package, renamed import, parenthesised type, alias of the pointer type - and per-site verdicts must be equal (once-per-file codes: same types reported in the using package).",
+   "go/types identity; direct-spelling verdicts judged by C01-C04", "2/C13"),
 }
 
 NA_REASON = "check not built yet in this round (planned, see DESIGN.md section 2)"
@@ -46,7 +58,7 @@ def main():
             "add_only": True,
         },
         "engines": [
-            {"name": "E1 histmc", "path": "/verif/mc/internal/e1", "serves_properties": ["C01", "C02"],
+            {"name": "E1 histmc", "path": "/verif/mc/internal/e1", "serves_properties": ["C01", "C02", "C03", "C04", "C13"],
              "kind_free_text": "explicit-state search over declaration/statement histories; successor = history + one declaration, re-rendered and re-analysed by the real analyzers (checker.Analyze)"},
         ],
         "checks": checks,
